@@ -268,8 +268,38 @@ def _is_atomic_load(c):
     return c.endswith("AtomicBool::load") or c == "core::sync::atomic::Atomic::load" or c.endswith("atomic::Atomic::<T>::load")
 
 
+_POISON_FIELDS = {}
+_ATOMIC_BOOL = ("core::sync::atomic::Atomic<bool>", "core::sync::atomic::AtomicBool", "std::sync::atomic::AtomicBool")
+
+
+def poison_fields(facts):
+    """names of the poison flag: the field(s) of the store's shared state that are an atomic bool, or a small wrapper type of
+    the crate around one (`poison: PoisonFlag(AtomicBool)`)"""
+    if facts is None:
+        return {"poisoned"}
+    key = id(facts)
+    if key not in _POISON_FIELDS:
+        out = set()
+        adt = facts.adts.get("nomt::store::Shared")
+        for v in (adt or {}).get("variants", []):
+            for f in v.get("fields", []):
+                ty = f.get("ty", "")
+                if ty in _ATOMIC_BOOL:
+                    out.add(f["n"])
+                elif ty in facts.adts and ty.startswith("nomt::"):
+                    inner = [g.get("ty", "") for vv in facts.adts[ty].get("variants", []) for g in vv.get("fields", [])]
+                    if inner and all(x in _ATOMIC_BOOL for x in inner):
+                        out.add(f["n"])
+        _POISON_FIELDS[key] = out or {"poisoned"}
+    return _POISON_FIELDS[key]
+
+
+_PF_FACTS = [None]
+
+
 def _loads_poisoned(body, t):
-    return _is_atomic_load(t.get("callee", "")) and t["args"] and any("poisoned" in r.fields for r in trace(body, t["args"][0]))
+    names = poison_fields(_PF_FACTS[0])
+    return _is_atomic_load(t.get("callee", "")) and t["args"] and any(names & set(r.fields) for r in trace(body, t["args"][0]))
 
 
 def _returns_poisoned_flag(facts, callee, depth=0):
@@ -287,6 +317,7 @@ def _returns_poisoned_flag(facts, callee, depth=0):
 
 
 def g_poisoned(body, facts):
+    _PF_FACTS[0] = facts
     out = []
     for b, t in body.calls():
         if _loads_poisoned(body, t):
